@@ -219,11 +219,67 @@ def check_pair(ctx, dendropy, t1, t2, pending, label="dist"):
             ctx.fail("definition", "euclidean_distance = %r, L2 norm = sqrt(%s)" % (m["euclid"], e2), case)
     if (m["wrf"] == "E") != (m["euclid"] == "E"):
         ctx.fail("definedness", "weighted RF and Euclidean distance disagree on whether the pair is refused", case)
+    extra_surface(ctx, dendropy, t1, t2, m, case)
     got = "%d %d %s | %s" % (m["fpfn"][0], m["fpfn"][1], "E" if m["wrf"] == "E" else tu.frac(m["wrf"]),
                              " ".join(str(x) for x in m["missing_order"]) if "missing_order" in m else "")
     line = "dist %s %s %s %s" % (case["rooted"], case["rooted2"], " ".join(case["tree"]), " ".join(case["tree2"]))
     pending.append((line, case, m))
     return m, d1, d2
+
+
+def extra_surface(ctx, dendropy, t1, t2, m, case):
+    """the other public entry points must agree with the ones judged above: the unweighted/weighted aliases, the deprecated
+    Tree methods, and is_bipartitions_updated=True on trees whose encodings ARE current"""
+    from dendropy.calculate import treecompare
+    r = ctx.rng.random()
+    if r > 0.35:
+        return
+    a, b = clone(dendropy, t1), clone(dendropy, t2)
+    vals = {}
+    try:
+        vals["unweighted_robinson_foulds_distance"] = treecompare.unweighted_robinson_foulds_distance(a, b)
+        a, b = clone(dendropy, t1), clone(dendropy, t2)
+        vals["Tree.symmetric_difference"] = a.symmetric_difference(b)
+        a, b = clone(dendropy, t1), clone(dendropy, t2)
+        vals["Tree.false_positives_and_negatives"] = tuple(a.false_positives_and_negatives(b))
+        a, b = clone(dendropy, t1), clone(dendropy, t2)
+        a.encode_bipartitions()
+        b.encode_bipartitions()
+        vals["symmetric_difference(is_bipartitions_updated=True)"] = treecompare.symmetric_difference(a, b, is_bipartitions_updated=True)
+        vals["false_positives_and_negatives(is_bipartitions_updated=True)"] = tuple(
+            treecompare.false_positives_and_negatives(a, b, is_bipartitions_updated=True))
+    except Exception as e:
+        ctx.fail("exception", "alias/updated-encoding entry point raised %s: %s" % (type(e).__name__, str(e)[:100]), case)
+        return
+    want = {"unweighted_robinson_foulds_distance": m["rf"], "Tree.symmetric_difference": m["rf"],
+            "Tree.false_positives_and_negatives": tuple(m["fpfn"]),
+            "symmetric_difference(is_bipartitions_updated=True)": m["rf"],
+            "false_positives_and_negatives(is_bipartitions_updated=True)": tuple(m["fpfn"])}
+    for k, v in vals.items():
+        if v != want[k]:
+            ctx.fail("definition", "%s = %s, symmetric_difference / false_positives_and_negatives with default arguments give %s" % (k, v, want[k]), case)
+    if m["wrf"] != "E":
+        for name, fn in (("robinson_foulds_distance", lambda x, y: treecompare.robinson_foulds_distance(x, y)),
+                         ("Tree.robinson_foulds_distance", lambda x, y: x.robinson_foulds_distance(y)),
+                         ("weighted_robinson_foulds_distance(is_bipartitions_updated=True)", None)):
+            a, b = clone(dendropy, t1), clone(dendropy, t2)
+            try:
+                if fn is None:
+                    a.encode_bipartitions()
+                    b.encode_bipartitions()
+                    v = treecompare.weighted_robinson_foulds_distance(a, b, is_bipartitions_updated=True)
+                else:
+                    v = fn(a, b)
+            except Exception as e:
+                ctx.fail("exception", "%s raised %s" % (name, type(e).__name__), case)
+                continue
+            if not close(v, m["wrf"]):
+                ctx.fail("definition", "%s = %r, weighted_robinson_foulds_distance with default arguments gives %r" % (name, v, m["wrf"]), case)
+    if m["euclid"] != "E":
+        a, b = clone(dendropy, t1), clone(dendropy, t2)
+        v = a.euclidean_distance(b)
+        if not close(v, m["euclid"]):
+            ctx.fail("definition", "Tree.euclidean_distance = %r, treecompare.euclidean_distance gives %r" % (v, m["euclid"]), case)
 
 
 def flush(ctx, pending):
